@@ -351,7 +351,7 @@ class Contract:
                  inline=(), inline_only=False, slice=None, class_attrs=None, writes=(), note="", shape_bound=4,
                  native=None, name=None, self_spec=None, max_shapes=60, crosscheck=True, refute=True, assumed=False,
                  native_call=None, cases_filter=None, gen=None, native_ok=True, compare_native=None, slice_note=None,
-                 not_decided=(), lemmas=None, ghost_after=None, finite=None, locate=None, curry=(), finite_native=None, lib=None):
+                 not_decided=(), lemmas=None, ghost_after=None, ghost_on=(), finite=None, locate=None, curry=(), finite_native=None, lib=None):
         self.target = target
         self.props = list(props)
         self.params = dict(params or {})
@@ -382,6 +382,7 @@ class Contract:
         self.not_decided = list(not_decided)
         self.lemmas = dict(lemmas or {})
         self.ghost_after = dict(ghost_after or {})
+        self.ghost_on = list(ghost_on)    # [(predicate(ast stmt) -> bool, ghost(view) -> commands)] run after matching statements
         self.finite_native = finite_native  # finite_native(obligation id) -> (fails natively: bool, text)
         self.libname = lib                # None: plain library models; 'obs': observable-valued scalars (lib_obs)
         self.finite = finite              # finite(registry) -> list of (id, ok, detail): exhaustive exact decision
